@@ -1265,9 +1265,12 @@ void NifFile::TrimTexturePaths() {
 	}
 }
 
-void NifFile::CloneChildren(NiObject* block, NifFile* srcNif) {
+void NifFile::CloneChildren(NiObject* block, NifFile* srcNif, const uint32_t srcBlockId) {
 	if (!srcNif)
 		srcNif = this;
+
+	// Ptrs to the block the clone was made from (controller and collision targets) are rebound to the clone
+	const uint32_t destBlockId = srcBlockId != NIF_NPOS ? GetBlockID(block) : NIF_NPOS;
 
 	// Assign new refs and strings, rebind ptrs where possible
 	std::function<void(NiObject*, uint32_t, uint32_t)> cloneBlock =
@@ -1293,16 +1296,18 @@ void NifFile::CloneChildren(NiObject* block, NifFile* srcNif) {
 					str->SetIndex(strId);
 				}
 
-				if (parentOldId != NIF_NPOS) {
-					std::set<NiRef*> ptrs;
-					destChild->GetPtrs(ptrs);
+				std::set<NiRef*> ptrs;
+				destChild->GetPtrs(ptrs);
 
-					for (auto& p : ptrs)
-						if (p->index == parentOldId)
-							p->index = parentNewId;
-
-					cloneBlock(destChild, parentOldId, parentNewId);
+				for (auto& p : ptrs) {
+					if (srcBlockId != NIF_NPOS && p->index == srcBlockId)
+						p->index = destBlockId;
+					else if (parentOldId != NIF_NPOS && p->index == parentOldId)
+						p->index = parentNewId;
 				}
+
+				if (parentOldId != NIF_NPOS)
+					cloneBlock(destChild, parentOldId, parentNewId);
 				else
 					cloneBlock(destChild, oldId, destId);
 			}
@@ -1338,7 +1343,7 @@ NiShape* NifFile::CloneShape(NiShape* srcShape, const std::string& destShapeName
 		rootNode->childRefs.AddBlockRef(destId);
 
 	// Children
-	CloneChildren(destShape, srcNif);
+	CloneChildren(destShape, srcNif, srcNif->GetBlockID(srcShape));
 
 	// Geometry Data
 	auto destGeomData = hdr.GetBlock<NiTriBasedGeomData>(destShape->DataRef());
